@@ -6,6 +6,7 @@ package main
 // both sides, so a case never depends on reading hidden state back.
 
 import (
+	"errors"
 	"fmt"
 	"strconv"
 	"strings"
@@ -56,17 +57,18 @@ type Node struct {
 	Bv bool    `json:"bv,omitempty"`
 	F  float64 `json:"f,omitempty"`
 	// stack / cond configuration
-	A     string     `json:"a,omitempty"` // akind: "", "aval", "aptr", "avalstr", "aptrstr"
-	Kind  string     `json:"kind,omitempty"`
-	Opt   int        `json:"opt,omitempty"`
-	Sym   string     `json:"sym,omitempty"`
-	Delim string     `json:"delim,omitempty"`
-	Enc   [][]string `json:"enc,omitempty"`
-	Fifo  bool       `json:"fifo,omitempty"`
-	Cap   int        `json:"cap,omitempty"` // 0 = none
-	Mutex bool       `json:"mutex,omitempty"`
-	ID    string     `json:"id,omitempty"`
-	Els   []*Node    `json:"els,omitempty"`
+	A      string     `json:"a,omitempty"` // akind: "", "aval", "aptr", "avalstr", "aptrstr"
+	Kind   string     `json:"kind,omitempty"`
+	Opt    int        `json:"opt,omitempty"`
+	Sym    string     `json:"sym,omitempty"`
+	Delim  string     `json:"delim,omitempty"`
+	Enc    [][]string `json:"enc,omitempty"`
+	Fifo   bool       `json:"fifo,omitempty"`
+	Cap    int        `json:"cap,omitempty"` // 0 = none
+	Mutex  bool       `json:"mutex,omitempty"`
+	PreErr bool       `json:"preerr,omitempty"` // an error was stored (SetErr) before the operation under test
+	ID     string     `json:"id,omitempty"`
+	Els    []*Node    `json:"els,omitempty"`
 	// cond
 	Kw string  `json:"kw,omitempty"`
 	Op *OpDesc `json:"op,omitempty"`
@@ -147,6 +149,9 @@ func (n *Node) BuildStack() stk.Stack {
 	applyOpts(s, n.Opt)
 	if n.Opt&128 != 0 {
 		s.SetReadOnly(true)
+	}
+	if n.PreErr {
+		s.SetErr(errors.New("stale error"))
 	}
 	return s
 }
@@ -326,7 +331,11 @@ func (n *Node) CoqCfg() string {
 	if n.Cap > 0 {
 		cp = n.Cap + 1
 	}
-	return fmt.Sprintf("(cfgS %d%%N %d%%N %s %s %s %s %d)", typ, n.Opt, coqBytes(sym), coqBytes(delim), coqEnc(n.Enc), coqBool(n.Fifo), cp)
+	cfg := fmt.Sprintf("(cfgS %d%%N %d%%N %s %s %s %s %d)", typ, n.Opt, coqBytes(sym), coqBytes(delim), coqEnc(n.Enc), coqBool(n.Fifo), cp)
+	if n.PreErr && n.T == "stack" {
+		cfg = "(set_c_err " + cfg + " (Some 77%N))"
+	}
+	return cfg
 }
 
 func fmtFloat(f float64, ty int) string {
